@@ -114,6 +114,26 @@ def _supplied_path(ctx, chk, kw, inst, r):
             chk.violation("R15.2", FST, inst + ":extra-points", [show(p_, 60) for p_ in extra], "only the supplied points when any are supplied", ctx.where(FST))
 
 
+def curve_owns_arrays(ctx, chk, rule="R15.10", fns=(ROCQ,)):
+    """The returned curve's arrays are computed, not the caller's own buffers: a ROCCurve attribute that may alias a supplied
+    fnr / fpr / thresholds array changes when the caller re-uses that array, and its rates then no longer belong to its thresholds."""
+    from ..alias import construction_aliases
+    n = 0
+    for q in fns:
+        fi = ctx.db.function(q)
+        for call, slots in construction_aliases(fi.node, {"ROCCurve"}):
+            for k, al in sorted(slots.items()):
+                n += 1
+                inst = "%s:ROCCurve.%s" % (q.split(".")[-1], k)
+                if al:
+                    chk.violation(rule, q, inst + ":aliases-" + "-".join(sorted(al)), "ROCCurve(%s=...) may share storage with the caller's `%s` (no-copy conversion / view)" % (k, ", ".join(sorted(al))),
+                                  "freshly computed arrays", "%s:%d" % (fi.module.relpath, call.lineno))
+                else:
+                    chk.hold(rule, inst, "aliases no argument", nontrivial=False)
+    if n == 0:
+        chk.unknown(rule, "no ROCCurve construction found in %s" % ", ".join(fns))
+
+
 def run(ctx, chk, tier):
     chk.rule_text = ("obligations: curve consistency and containment for 8 supply combinations, reversal parity for 8 x-axes x 4 configurations, point counts, 12 derived views; "
                      "non-trivial = obligation mentions derived threshold terms")
@@ -140,6 +160,7 @@ def run(ctx, chk, tier):
             r = o_.value
             _supplied_path(ctx, chk, kw, inst, r)
     support_args_untouched(ctx, chk)
+    curve_owns_arrays(ctx, chk)
     # ---------------- R15.4 point counts
     for kw, label in (({"nb_points": NB}, "nb_points"), ({"nb_points": Const(None)}, "all-scores")):
         outs = with_stubs(ctx, lambda: ctx.explore(lambda: ev.call(roc, [ctx.scores_obj("pos", "pos")], dict(kw, x_axis=Const("fnr"))), chk))
